@@ -1,6 +1,6 @@
-\* two channels (compat surface), one id per channel, up to 1 unreported commit per channel:
-\* 66,564 distinct / 993,934 generated states, ~6 min with 4 workers on a loaded machine
-SPECIFICATION Spec9
+\* multi-item StoreAppendBatch calls over TWO channels (one id / one row per channel, up to 1 unreported commit per channel):
+\* 66,564 distinct / 1,651,566 generated states, depth 21, ~8 min with 4 workers on a loaded machine
+SPECIFICATION Spec9B
 CONSTANTS
   Chans = {"c1", "c2"}
   Ids = {1, 2}
@@ -22,5 +22,5 @@ CONSTANTS
   KeepRmaxVariant = FALSE
 VIEW View9
 INVARIANTS TypeOK C07_IndexSound C08_KeyUnique C08_IdOnce C08_FilterCovers C09_EveryCrashImageSound C09_ViewIsNewest C09_WatermarkBelowLogEnd C09_LogEnd
-PROPERTIES C09_RecoversAPrefix C09_ReportKeeps
+PROPERTIES C09_RecoversAPrefix C09_ReportKeeps C09_BatchIsOneCommit
 CHECK_DEADLOCK FALSE
